@@ -96,6 +96,12 @@ func (rg *rig) stallCase(ss stallSpec, id string, rng *rand.Rand) {
 	rg.be.setPlan(o, p)
 	rg.noteCase(ss.label())
 	st := rg.be.stalls()
+	defer func() {
+		rg.be.forget(o.hash)
+		if o.acRef != nil {
+			rg.be.forget(o.acRef.hash)
+		}
+	}()
 
 	ctx, cancel := context.WithCancel(context.Background())
 	done := make(chan outcome, 1)
@@ -187,7 +193,7 @@ func (rg *rig) queuedChecksCase(failFast bool, id string, rng *rand.Rand) {
 	}
 	defer func() {
 		for _, o := range objs {
-			rg.be.clearPlan(o.hash)
+			rg.be.forget(o.hash)
 		}
 	}()
 	st := rg.be.stalls()
@@ -217,6 +223,7 @@ func (rg *rig) queuedChecksCase(failFast bool, id string, rng *rand.Rand) {
 	} else {
 		ac := newAR(rng, cache.AC, 200, id+"-ac", digests...)
 		rg.be.put(ac)
+		defer rg.be.forget(ac.hash)
 		ctx, cancel := context.WithTimeout(context.Background(), 120*time.Second)
 		_, err := rg.front.AC.GetActionResult(ctx, &pb.GetActionResultRequest{ActionDigest: &pb.Digest{Hash: ac.hash, SizeBytes: 1}})
 		cancel()
@@ -250,6 +257,7 @@ func (rg *rig) hookCancelCase(point string, p *op, id string, rng *rand.Rand) {
 	o := rg.makeObject(rng, cs, id)
 	det := &readDetail{Rig: rg.name, Case: id, Op: p.name, Plan: "healthy backend; client cancels at " + point, Object: o.String(), Expect: "key reads correctly afterwards; nothing left behind"}
 	rg.be.put(o)
+	defer rg.be.forget(o.hash)
 	rg.noteCase(p.name + "/cancel-at-" + point)
 	key := cache.LookupKey(o.kind, o.hash)
 	gate := h.Gate(point, key, 1)
